@@ -62,7 +62,15 @@ def concretize(obj, model):
             if z3.is_bv(e) or z3.is_int(e):
                 return e.as_long()
             if z3.is_fp(e):
-                return float(e.as_string()) if hasattr(e, "as_string") else 0.0
+                if not isinstance(e, z3.FPNumRef):
+                    return str(e)
+                if e.isNaN():
+                    return "NaN"
+                if e.isInf():
+                    return "-inf" if e.isNegative() else "inf"
+                if e.isZero():
+                    return -0.0 if e.isNegative() else 0.0
+                return float(z3.simplify(z3.fpToReal(e)).as_fraction())
             return str(e)
         return str(v)
     return c(obj)
